@@ -1308,6 +1308,15 @@ def process_fn(fn, spec, handle, stats, canary):
             sig = re.sub(r"\(\s*mut\s+self\s*([,)])", r"(self\1", sig, count=1)
             body = "\n    let mut self_ = self;" + replace_self(body)
             stats["R1"] += 1
+    for gs_ in getattr(spec, "ghostlets", {}).get(name, []):
+        # a ghost snapshot at function entry (annotation only: `let ghost x = <expr>;`)
+        g2 = replace_self(gs_) if (by_value and not handle) else gs_
+        pre_ = "\n    let mut self_ = self;"
+        if body.startswith(pre_):
+            body = pre_ + "\n    %s\n" % g2 + body[len(pre_):]
+        else:
+            body = "\n    %s\n" % g2 + body
+        stats["added_lines"] += 1
     for (expr, why) in spec.assumes.get(name, []):
         e2 = replace_self(expr) if (by_value and not handle) else expr
         pre_ = "\n    let mut self_ = self;"
@@ -1944,6 +1953,15 @@ def generate_(template_path, variant, canary=False):
                 elif t[0] == "@@trusted":
                     spec.trusted.add(t[1])
                     stats["trusted_fns"] += 1
+                    i += 1
+                elif t[0] == "@@ghostlet":
+                    # @@ghostlet <fn> :: let ghost x = <expr>;
+                    st_ = l.split(" :: ", 1)[1].strip()
+                    if not re.match(r"^let ghost \w+ = [^;]+;$", st_):
+                        raise ExtractError("@@ghostlet must be `let ghost <name> = <expr>;`")
+                    if not hasattr(spec, "ghostlets"):
+                        spec.ghostlets = {}
+                    spec.ghostlets.setdefault(t[1], []).append(st_)
                     i += 1
                 elif t[0] == "@@assume":
                     parts = l.split(" :: ")
